@@ -582,3 +582,35 @@ send $n (
   destination = @c
 )`, vars: mvars("n", "monetary", "od", "monetary", "od2", "monetary"), asset: cA, bounds: boundsOf("a", []string{"od", "od2"})})
 }
+
+// two balance() variables on the same account, for two assets
+func Harness_VM_36_two_balance_vars_one_account() {
+	checkCase(vmCase{script: `vars {
+  monetary $x = balance(@a, USD/2)
+  monetary $y = balance(@a, EUR/2)
+}
+send $x (
+  source = @world
+  destination = @b
+)
+send $y (
+  source = @world
+  destination = @c
+)`, total: func(bal func(string, string) *big.Int, _ map[string]machine.Value) *big.Int {
+		return new(big.Int).Add(bal("a", cA), bal("a", "EUR/2"))
+	}})
+}
+
+// a number variable handed over as JSON text, as the API does: any kind of JSON literal
+func Harness_VM_37_number_var_from_json() {
+	texts := []string{"null", "12", "-3", "true", "\"12\"", "1.5", "[]", "{}", ""}
+	checkCase(vmCase{script: `vars {
+  number $n
+}
+set_tx_meta("n", $n)
+send [USD/2 1] (
+  source = @world
+  destination = @b
+)`, asset: cA, jsonVars: func() map[string]string { return map[string]string{"n": texts[nondetChoice("literal", len(texts))]} },
+		total: func(func(string, string) *big.Int, map[string]machine.Value) *big.Int { return big.NewInt(1) }})
+}
